@@ -24,6 +24,7 @@ EXPLANATION = (
     'deletion in delete_snapshots; provenance of every listed quantity (sizes from range differences, counts from len, times with the ns / legacy-seconds units). '
     'Rules C15.R1-R5.'
     ' Added with the seeded-defect rounds: leftovers of a finished loop, one row per record, no late-binding closures over loop variables, table placeholder for None only, local listing follows links.'
+    ' Round 6: unit / divisor pairing of bytes_to_human (if-chain, unit loop unrolled over its constant, table form), every loaded snapshot gets a row, complete pagination.'
 )
 NOT_DECIDED = 'which version is restored for concrete timestamp histories (runtime values); chronological meaning of the stored time string'
 TRUSTED = ['re.search semantics', 'list.sort is stable and honours reverse=True', 'CPython ast']
